@@ -287,19 +287,23 @@ Proof.
 Qed.
 
 Theorem mirror_correct sk ops md max :
-  wf (o_hs sk) -> late_incremental md sk = false -> fits max sk ops = true ->
+  wf (o_hs sk) -> fits max sk ops = true ->
   let r := mirror_task (mirror_init md sk max) (sub_stream md sk (snd (run_ops sk ops))) in
   snd r = None /\
   m_hs (fst r) = o_hs (fst (run_ops sk ops)) /\
   m_done (fst r) = o_done (fst (run_ops sk ops)) /\
   m_complete (fst r) = true.
 Proof.
-  intros W L F. cbv zeta. destruct (o_done sk) eqn:D.
+  intros W F. cbv zeta. destruct (o_done sk) eqn:D.
   - rewrite (run_ops_done ops sk D). cbn [fst snd]. unfold mirror_init, sub_stream, initial_set. rewrite D.
     destruct md.
     + cbn. rewrite ?D. repeat split; reflexivity.
-    + unfold late_incremental in L. rewrite D in L. cbn [andb] in L. apply negb_false_iff in L.
-      destruct (o_hs sk) as [|e m] eqn:EH; [|discriminate]. cbn. rewrite ?D. repeat split; reflexivity.
+    + (* the mirror starts not done, applies the whole initial value, then [Done] *)
+      pose proof (fits_head max sk ops F) as Hh.
+      pose proof (initial_sets_up (o_hs sk) [] W) as ((_ & R0 & D0) & L0 & P0). cbn [app] in R0, L0, P0.
+      rewrite <- app_assoc.
+      rewrite (mirror_task_data _ _ [] false max D0) by lia. rewrite R0.
+      cbn. rewrite ?D. repeat split; reflexivity.
   - destruct (run_ops_live ops sk D W) as (pre & Hs & Hd & Hr & Hp).
     specialize (Hp max F). pose proof (fits_head max sk ops F) as Hh.
     unfold mirror_init, sub_stream, initial_set. rewrite D, Hs.
@@ -351,14 +355,13 @@ Qed.
 Lemma state_at_wf init ops k : wf (o_hs (state_at init ops k)).
 Proof. unfold state_at. apply run_ops_wf. cbn [obs_of o_hs]. apply wf_of_list. Qed.
 
-Theorem mirror_ok_outside_known_class init ops k md max :
-  late_incremental_at init ops k md = false ->
+Theorem mirror_ok_always init ops k md max :
   fits_from max init ops k = true ->
   mirror_ok init ops k md max.
 Proof.
-  unfold late_incremental_at, fits_from, mirror_ok, stream_at. intros L F.
+  unfold fits_from, mirror_ok, stream_at. intros F.
   rewrite (final_state_split init ops k).
-  destruct (mirror_correct _ _ md max (state_at_wf init ops k) L F) as (H1 & H2 & H3 & H4).
+  destruct (mirror_correct _ _ md max (state_at_wf init ops k) F) as (H1 & H2 & H3 & H4).
   repeat split; try assumption. intros x. rewrite H2. reflexivity.
 Qed.
 
@@ -383,13 +386,10 @@ Lemma events_covered :
   forall e, In (event_name e) (map event_name all_events).
 Proof. split; [reflexivity|]. destruct e; cbn; tauto. Qed.
 
-(** ** Witness: the statement fails inside the known class *)
+(** The former F11 class (repaired in /repo by commit 290b96a) is now mirrored correctly. *)
 Definition f11_ops : list op := [MarkDone].
-Lemma late_incremental_refuted :
+Lemma late_incremental_now_ok :
   late_incremental_at [1; 2] f11_ops 1 Incremental = true /\
-  fits_from 100 [1; 2] f11_ops 1 = true /\
-  ~ mirror_ok [1; 2] f11_ops 1 Incremental 100.
-Proof.
-  repeat split; try (vm_compute; reflexivity).
-  intros (_ & _ & H & _). vm_compute in H. discriminate.
-Qed.
+  mirror_task (mirror_init Incremental (state_at [1; 2] f11_ops 1) 100) (stream_at [1; 2] f11_ops 1 Incremental)
+  = ({| m_hs := [(1, tt); (2, tt)]; m_complete := true; m_done := true; m_max := 100 |}, None).
+Proof. split; vm_compute; reflexivity. Qed.
